@@ -451,3 +451,77 @@ Theorem C12_anti_sizes_small_avg_refuted :
     get_antitargets T (Some acc) avg mn cut = Some out /\ In b out /\
     ~ (inject_Z (hi b - lo b) <= (3 # 2) * avg)%Q.
 Proof. exact Proofs.TargetSizes.c12_anti_sizes_small_avg_refuted. Qed.
+
+(* ==== LOOP TIES (function-body translator, tools/fnspecs/bins_loops.py) ================
+   Loop bodies, helper functions and per-row decisions of cnvlib/target.py and
+   cnvlib/antitarget.py, and the bin loop of skgenome/subdivide.py for a rational average,
+   translated from the source text on every run (Gen/FnTargetShorten.v, FnTargetNames.v,
+   FnTargetZero.v, FnAntiSkip.v; Gen/FnBinsSplit.v + Gen/FnIvSplitLoop.v). *)
+From CNV Require Import Proofs.FnTargetShorten Proofs.FnTargetNames Proofs.FnTargetZero Proofs.FnAntiSkip
+  Proofs.FnBinsLoop Proofs.FnIvSplitLoop.
+From CNV Require Gen.FnTargetShorten Gen.FnTargetNames Gen.FnTargetZero Gen.FnAntiSkip.
+
+(* shorten_labels, one iteration of `for label in gene_labels` as generated: continuing a gene
+   (the overlap is not empty) or closing it (the emission range's yields, count back to 1) *)
+Theorem C12_source_shorten_step : forall (curr : list string) (count len0 : Z)
+    (next ov filtered emitted : list string) (len1 : Z),
+  Gen.FnTargetShorten.fn_shorten_step curr count len0 next ov filtered emitted len1 =
+  match ov with
+  | [] => (next, 1, len1, emitted)
+  | _ => (filtered, count + 1, len0, [])
+  end.
+Proof. exact source_shorten_step. Qed.
+
+(* shorten_labels IS the generated step folded over the labels, then the final emission *)
+Theorem C12_source_shorten : forall (pick : list string -> string) (labels : list string) (len0 : Z),
+  src_shorten pick [] 0 len0 labels = shorten_labels_pick pick labels.
+Proof. exact source_shorten_labels. Qed.
+
+(* filter_names and shortest_name, whole bodies *)
+Theorem C12_source_filter_names : forall names : list string,
+  filter_names names = Gen.FnTargetNames.fn_filter_names names (ok_names names).
+Proof. exact source_filter_names. Qed.
+
+Theorem C12_source_shortest_name : forall (pick : list string -> string) (names : list string),
+  shortest_name_pick pick names =
+  let name := pick (shortest_names names) in
+  Gen.FnTargetNames.fn_shortest_name name (inner_bar name) (accession name).
+Proof. exact source_shortest_name. Qed.
+
+(* do_target's `tgt_arr[tgt_arr.start != tgt_arr.end]` *)
+Theorem C12_source_drop_zero : forall (d : Z) (t : list grow),
+  drop_zero_width t = filter (fun r => Gen.FnTargetZero.fn_keep_target d (lo r) (hi r)) t.
+Proof. exact source_drop_zero. Qed.
+
+(* drop_noncanonical_contigs: the skipped chromosomes and the surviving rows *)
+Theorem C12_source_chroms_to_skip : forall (d : Z) (access_chroms target_chroms : list string),
+  chroms_to_skip access_chroms target_chroms =
+  filter (fun c => Gen.FnAntiSkip.fn_skip_chrom d (existsb Access.is_canonical_contig_name target_chroms)
+                     (Access.is_canonical_contig_name c) c (max_len target_chroms))
+         (filter (fun c => negb (mem_string c target_chroms)) access_chroms).
+Proof. exact source_chroms_to_skip. Qed.
+
+Theorem C12_source_drop_rows : forall access targets : list grow,
+  drop_noncanonical access targets =
+  match compare_chrom_names access targets with
+  | None => None
+  | Some (ac, tc) =>
+      Some (filter (fun r => Gen.FnAntiSkip.fn_keep_access_row (mem_string (chrom r) (chroms_to_skip ac tc))) access)
+  end.
+Proof. exact source_drop_rows. Qed.
+
+(* subdivide for a rational average: one merged region through the generated rule and the
+   generated bin loop IS split_row_q with the cut points read exactly; gsubdivide is that per
+   merged region; and the exact cut points meet the contract of the size theorems *)
+Theorem C12_source_split_loop : forall (A : Type) (avg : Q) (mn : Z) (r : @row A), (0 < avg)%Q ->
+  src_split_row_q avg mn r = split_row_q avg mn cut_of_source r.
+Proof. exact @source_split_row_q. Qed.
+
+Theorem C12_source_subdivide : forall (avg : Q) (mn : Z) (t : list grow), (0 < avg)%Q ->
+  gsubdivide avg mn cut_of_source t =
+  flat_map (src_split_row_q avg mn) (gmerge Gen.IvDefaults.merge_bp_default t).
+Proof. exact source_gsubdivide. Qed.
+
+Theorem C12_source_cut_contract : forall span n : Z, 0 <= span -> 0 < n ->
+  cut_contract span n (cut_of_source span n).
+Proof. exact source_cut_contract. Qed.
